@@ -37,6 +37,12 @@ def base_configs(rnd):
     res = {"R_BC": {"pair": "R_BC", "J": 0.5, "P": 1, "mass": 2.0, "width": 0.2}, "R_BD": {"pair": "R_BD", "J": 1, "P": 1, "mass": 1.23, "width": 0.14},
            "R_CD": {"pair": "R_CD", "J": 0.5, "P": -1, "mass": 1.44, "width": 0.3}}
     out.append(("vecspin", res, (0.5, 1), {"B": (1, -1), "C": (0.5, 1), "D": (0, -1)}, True, M0, mf))
+    # two identical vector particles (declared identical: the symmetrised copy goes through cal_angle_from_momentum_id_swap,
+    # which has to honour the same conventions); all three pairings present, so the chain set is closed under the exchange
+    mf = {"B": 2.01, "C": 2.01, "D": 0.14}; M0 = 4.6
+    res = {"R_BD": {"pair": "R_BD", "J": 1, "P": 1, "mass": 2.42, "width": 0.03}, "R_BC": {"pair": "R_BC", "J": 1, "P": 1, "mass": 4.2, "width": 0.1},
+           "R_CD": {"pair": "R_CD", "J": 1, "P": 1, "mass": 2.46, "width": 0.05}}
+    out.append(("ident", res, (1, -1), {"B": (1, -1), "C": (1, -1), "D": (0, -1)}, False, M0, mf, {"identical_particles": [["B", "C"]]}))
     return out
 
 
@@ -57,7 +63,7 @@ def variants(res, rnd):
     return out
 
 
-def run_base(ctx, rnd, tag, res, top, fin, weak, M0, mf, cases, nev):
+def run_base(ctx, rnd, tag, res, top, fin, weak, M0, mf, cases, nev, dopts=None):
     from tf_pwa.config_loader import ConfigLoader
     p4 = ampkit.gen_events(M0, mf, nev, rnd.randrange(10 ** 6))
     # also a boosted copy: the parent moves, so random_z / center_mass actually do something
@@ -67,7 +73,7 @@ def run_base(ctx, rnd, tag, res, top, fin, weak, M0, mf, cases, nev):
     pars = None
     for vname, order, opts in variants(res, rnd):
         r2 = {k: res[k] for k in order}
-        cfg = ampkit.three_body_config(M0, mf, r2, top=top, fin=fin, decay_opts=({k: {"p_break": True} for k in r2} if weak else None), data_opts=opts)
+        cfg = ampkit.three_body_config(M0, mf, r2, top=top, fin=fin, decay_opts=({k: {"p_break": True} for k in r2} if weak else None), data_opts=dict(opts, **(dopts or {})))
         config = ConfigLoader(cfg)
         amp = config.get_amplitude()
         if pars is None:
@@ -174,13 +180,13 @@ def search(ctx, fails):
 
 def run(ctx):
     rnd = random.Random(ctx.seed * 1000003 + 2)
-    ctx.rule = ("base configs: spin-1/2 weak decay (3/2, 3/2, 1 resonances) and spin-1/2 -> vector + spin-1/2 + scalar; variants: 3 chain orders x {base, align_ref=center_mass} + "
+    ctx.rule = ("base configs: spin-1/2 weak decay (3/2, 3/2, 1 resonances), spin-1/2 -> vector + spin-1/2 + scalar, vector -> two declared-identical vectors + scalar (all pairings); variants: 3 chain orders x {base, align_ref=center_mass} + "
                 "{random_z, center_mass, only_left_angle, random_z+align_ref} ; each in the parent rest frame and with a moving parent; distinct = (config, variant, frame, event)")
     common.theorem_stage(ctx)
     cases = []
     nev = 2 if ctx.tier == "quick" else 5
-    for (tag, res, top, fin, weak, M0, mf) in base_configs(rnd):
-        run_base(ctx, rnd, tag, res, top, fin, weak, M0, mf, cases, nev)
+    for (tag, res, top, fin, weak, M0, mf, *rest) in base_configs(rnd):
+        run_base(ctx, rnd, tag, res, top, fin, weak, M0, mf, cases, nev, dopts=(rest[0] if rest else None))
         ctx.sample({"config_tag": tag, "resonances": res, "top": top, "finals": fin})
     known_reproducers(ctx)
     for c in cases[:: max(1, len(cases) // 4)]:
@@ -191,7 +197,7 @@ def run(ctx):
             ctx.fail(meta["layer"], cid, "layer %s does not check (%s)" % (meta["layer"], res_[cid]), inp=meta,
                      site="convention:" + meta.get("variant", ""), fingerprint=meta["layer"])
     return common.finish(ctx, search=search, technique=TECHNIQUE, extra_assumptions=[
-        "PARTIAL: that a change of reference IS one common D matrix needs the group law D(R1R2)=D(R1)D(R2), not yet a theorem of the model; decided by the certified comparison of the code under the conventions",
+        "that a change of reference IS one common D matrix is a theorem of the model (C02_reference_change_is_common_matrix, from the group law D(UV)=D(U)D(V), all j); that the CODE's Euler angles of two conventions differ by one common rotation is decided by the certified comparison of the code under the conventions",
         "rtol 1e-8 on densities"])
 
 
